@@ -5,7 +5,8 @@ from pyvc.interp import Obligation
 from pyvc.libspec.core import LIB as _CORE
 from pyvc.libspec import np as _np
 from pyvc.contracts import *
-from contracts import specns, metric
+from contracts import specns, metric, bulkc
+from pyvc.libspec import bulk as _bulk, conc as _conc
 from contracts.metric import *
 
 LIB = dict(_CORE)
@@ -21,6 +22,11 @@ def targets(tier):
 		for on, ot in (('noout', Const(None)), ('out', F32Arr()), ('out_f8', NdArr('i8'))):
 			t.append((PM + 'jaccarddist_array', f'{rn},{on}', {'query': NdArr('u2'), 'refs': rt, 'out': ot}))
 	t.append((PM + 'jaccarddist_array', 'badquery', {'query': NdArr('u1'), 'refs': SigArrT('u2'), 'out': Const(None)}))
+	rm = bulkc.register_matrix
+	rm.lib = _bulk.BULK_LIB
+	for idn, idt in (('all', Const(None)), ('selection', SeqOf(Int))):
+		for cn, ct in (('onechunk', Const(None)), ('chunked', Int)):
+			t.append((PM + 'jaccarddist_matrix', f'{idn},{cn}', {'ref_indices': idt, 'chunksize': ct}, rm))
 	return t
 
 
@@ -42,6 +48,7 @@ TRUSTED = [
 	'C02 trusted base: D(a, b) is THE value of the compiled kernel for two sorted arrays (a function of the two element sequences), so "bit-identical" is equality of terms',
 	'OpenMP / Cython implement prange as documented: iterations in any interleaving, scalars assigned in the loop are lastprivate; the frame obligations (each iteration writes only its own output cell, reads no written array, views do not alias) then make every schedule and thread count equal to the sequential loop; omp_set_num_threads only sets the thread count',
 	'NumPy: empty, astype(copy=False), shape/dtype attributes, basic-slice views write through to the parent',
-	'BOUNDED only (real code, float32 bits compared, labelled): jaccarddist_matrix (chunk loop, ref_indices, caller buffers) and jaccarddist_pairwise (square mirror / condensed offsets), HDF5-backed and list containers, thread counts 1..16 with repetitions',
+	'jaccarddist_matrix is verified over an ABSTRACT model (pyvc/libspec/bulk.py): opaque signatures with DV(a, b) = THE two-signature distance, an opaque AbstractSignatureArray whose indexing obeys the C20 contract (item r of refs[a:b] / refs[index list] is the selected item), a 2-d float32 array with row views that write through; its callee jaccarddist_array is used through the caller view of the contract verified on the concrete representations',
+	'BOUNDED only (real code, float32 bits compared, labelled): jaccarddist_pairwise (square mirror / condensed offsets), caller-supplied buffers and plain-list references of jaccarddist_matrix, HDF5-backed and list containers, thread counts 1..16 with repetitions',
 ]
 ASSUMPTIONS = TRUSTED + ['requires: sorted duplicate-free non-negative signatures; len(out) == number of references; fewer than 2^31 references (C int loop counter); a SignatureArray satisfies its representation invariant (C20)']
